@@ -154,3 +154,66 @@ Theorem C09_round_reset : forall n evs s d evs',
   same_upto d (reach n evs') (run (Some s) (map (shift d) evs')).
 Proof. exact gate_round_reset. Qed.
 Print Assumptions C09_round_reset.
+
+(* ---- every way a render is started: requests (Engine.Render = one render,
+   Engine.RenderPartials = one gated render per partial, one after the other,
+   all with the request's context; failing at any partial), in every engine mode
+   (the gate does not look at Engine.Debug: one machine for both modes) *)
+
+(* every request history the machine accepts is carried out by gate events the gate
+   accepts: all theorems above hold for histories of requests *)
+Theorem C09_requests_refine : forall n qevs s,
+  req_reach n qevs = Some s -> reach n (rev (trace s)) = Some (gate s).
+Proof. exact req_refines. Qed.
+Print Assumptions C09_requests_refine.
+
+(* the renders at the gate or in flight are exactly the current renders of the
+   requests in progress, one per request: a request holds at most one slot, and
+   a request that is over holds none *)
+Theorem C09_request_renders : forall n qevs s,
+  req_reach n qevs = Some s ->
+  (forall r, In r (inflight (gate s)) \/ In r (waiting (gate s)) <-> exists q, In (q, r) (cur s)) /\
+  (forall q r q' r', In (q, r) (cur s) -> In (q', r') (cur s) -> (q = q' <-> r = r')).
+Proof. exact req_renders. Qed.
+Print Assumptions C09_request_renders.
+
+(* at most n requests have a template executing at any instant *)
+Theorem C09_requests_bound : forall n qevs s,
+  0 < n -> req_reach n qevs = Some s -> length (q_inside s) <= n.
+Proof. exact req_bound. Qed.
+Print Assumptions C09_requests_bound.
+
+(* after any history of requests: when every request is over (result, error,
+   panic or context error, after any number of partials) nothing is in flight,
+   nobody waits, and any n fresh renders all get past the gate together *)
+Theorem C09_requests_all_returned : forall n qevs s,
+  req_reach n qevs = Some s -> cur s = [] ->
+  inflight (gate s) = [] /\ waiting (gate s) = [] /\
+  forall rs, NoDup rs -> (forall r, In r rs -> ~ In r (started (rev (trace s)))) -> length rs = n ->
+    exists g', reach n (rev (trace s) ++ refill rs) = Some g' /\
+               (0 < n -> inflight g' = rs /\ waiting g' = []).
+Proof. exact req_all_returned. Qed.
+Print Assumptions C09_requests_all_returned.
+
+(* a request whose template is executing can return for good in every way, and
+   that hands back exactly its one slot *)
+Theorem C09_request_return_releases : forall n qevs s q r o,
+  req_reach n qevs = Some s -> In (q, r) (cur s) -> In r (inflight (gate s)) ->
+  exists s', req_step s (RReturn q o) = Some s' /\
+             inflight (gate s') = del r (inflight (gate s)) /\
+             waiting (gate s') = waiting (gate s) /\ cur s' = drop q (cur s) /\
+             S (length (inflight (gate s'))) = length (inflight (gate s)).
+Proof. exact req_return_releases. Qed.
+Print Assumptions C09_request_return_releases.
+
+(* going on to the next partial hands the slot back first: the next render of
+   the request queues at the gate like any other caller *)
+Theorem C09_request_next_releases : forall n qevs s q r r',
+  0 < n -> req_reach n qevs = Some s -> In (q, r) (cur s) -> In r (inflight (gate s)) ->
+  ~ In r' (started (rev (trace s))) ->
+  exists s', req_step s (RNext q r') = Some s' /\
+             inflight (gate s') = del r (inflight (gate s)) /\
+             waiting (gate s') = waiting (gate s) ++ [r'] /\
+             cur s' = (q, r') :: drop q (cur s).
+Proof. exact req_next_releases. Qed.
+Print Assumptions C09_request_next_releases.
